@@ -44,7 +44,15 @@ MCNext ==
           /\ SrcRead(o.m, o.e)
      /\ UNCHANGED <<policy, nops, flavour>>
 
+SrcStep == \E o \in SrcOutcomes(R.bcap - R.blen) :
+             /\ (src.failed \/ SrcLeft = 0 \/ PolicyAllows(o, R.bcap - R.blen))
+             /\ SrcRead(o.m, o.e)
+             /\ UNCHANGED <<policy, nops, flavour>>
 MCSpec == MCInit /\ [][MCNext]_mcvars
+\* liveness: under weak fairness of the source step every operation terminates, whatever the source does
+\* (productive chunks, empty reads forever, failure): the acquire loop is bounded by MaxEmpty and by the data
+MCLiveSpec == MCSpec /\ WF_mcvars(SrcStep)
+EveryOpTerminates == (pc = "reading") ~> (pc = "idle")
 
 \* history-free view: res / cur.gb are observation variables
 View == <<src, R, g.c - g.rmark, g.gaveUp, g.opEmptySeen, pc, cur.op, cur.n, policy, nops, flavour,
